@@ -2,12 +2,20 @@ import Driver.Common
 import Driver.C01
 import Driver.C02
 import Driver.C03
+import Driver.C04
+import Driver.C05
+import Driver.C06
+import Driver.C07
+import Driver.C08
+import Driver.C09
 import Driver.C10
+import Driver.C11
 import Driver.C12
 import Driver.C13
 import Driver.C14
 import Driver.C15
 import Driver.C16
+import Driver.C17
 import Driver.C18
 import Driver.C19
 import Driver.C20
@@ -18,12 +26,20 @@ def dispatch (id : String) : Option Handler :=
   | "C01" => some Driver.C01.handle
   | "C02" => some Driver.C02.handle
   | "C03" => some Driver.C03.handle
+  | "C04" => some Driver.C04.handle
+  | "C05" => some Driver.C05.handle
+  | "C06" => some Driver.C06.handle
+  | "C07" => some Driver.C07.handle
+  | "C08" => some Driver.C08.handle
+  | "C09" => some Driver.C09.handle
   | "C10" => some Driver.C10.handle
+  | "C11" => some Driver.C11.handle
   | "C12" => some Driver.C12.handle
   | "C13" => some Driver.C13.handle
   | "C14" => some Driver.C14.handle
   | "C15" => some Driver.C15.handle
   | "C16" => some Driver.C16.handle
+  | "C17" => some Driver.C17.handle
   | "C18" => some Driver.C18.handle
   | "C19" => some Driver.C19.handle
   | "C20" => some Driver.C20.handle
